@@ -15,3 +15,9 @@ package stream
 //@   ensures handler_exactly_once: calls(s.next.ServeHTTP) == 1
 //@   ensures writes_nothing_itself: calls(w.WriteHeader) == 0 && calls(w.Write) == 0 && calls(w.Header) == 0
 //@   at_call s.next.ServeHTTP same_writer_and_request: arg0 == w && arg1 == req
+
+//@ func (*Stream).Wrap
+//@   props C20
+//@   requires s != nil
+//@   modifies s.next
+//@   ensures rebound: s.next == next && result == nil
